@@ -40,6 +40,9 @@ theorem nkey_float_ofNat (n : Nat) (hn : n ≤ 2^53) : nkey (.float (ofNatMag n)
   rw [ofInt_natCast] at h
   exact h
 
+theorem two_pow_mul_lt (a b c d : Nat) (h : a + b < c + d) : 2^a * 2^b < 2^c * 2^d := by
+  rw [← Nat.pow_add, ← Nat.pow_add]; exact Nat.pow_lt_pow_right (by decide) h
+
 /-- the canonical float of a natural `n ≤ 2^53` is in the exact domain (finite, not NaN) -/
 theorem numOK_float_ofNat (n : Nat) (hn : n ≤ 2^53) : numOK (.float (ofNatMag n)) := by
   have hlt := ofNatMag_lt n hn
@@ -51,9 +54,8 @@ theorem numOK_float_ofNat (n : Nat) (hn : n ≤ 2^53) : numOK (.float (ofNatMag 
   · exfalso
     have hm := fvalMag_mono_le (2047 * 2^52) (ofNatMag n) (Nat.le_of_lt h)
     rw [hv, fvalMag_mul_pow 2047 (by decide)] at hm
-    have h1 : n * 2^1074 ≤ 2^53 * 2^1074 := Nat.mul_le_mul_right (2^1074) hn
-    have h2 : 2^53 * 2^1074 < 2^52 * 2^(2047 - 1) := by
-      rw [← Nat.pow_add, ← Nat.pow_add]; exact Nat.pow_lt_pow_right (by decide) (by decide)
+    have h1 := Nat.mul_le_mul_right (2^1074) hn
+    have h2 := two_pow_mul_lt 53 1074 52 (2047 - 1) (by decide)
     omega
   · exact h
 
@@ -87,5 +89,50 @@ theorem normalize_kinds_sameNumber (n : Nat) (hn : n ≤ 2^53) :
   have := h.2.1
   rw [ofInt_natCast] at this
   exact this
+
+/-! ## 2. `Compare` cannot tell two representations of one number apart -/
+
+theorem pairDom_symm {a b : Value} (h : PairDom a b) : PairDom b a := by
+  rcases h with h | h
+  · exact Or.inl ⟨h.2, h.1⟩
+  · exact Or.inr ⟨h.2, h.1⟩
+
+/-- the comparison by exact value only looks at `nkey` of a number -/
+theorem cmp_num_congr_right (x : Value) (m n : Num) (e : nkey m = nkey n) :
+    cmp nkey x (.num m) = cmp nkey x (.num n) := by
+  cases x <;> simp only [cmp, Value.rank, e]
+
+theorem cmp_num_congr_left (x : Value) (m n : Num) (e : nkey m = nkey n) :
+    cmp nkey (.num m) x = cmp nkey (.num n) x := by
+  cases x <;> simp only [cmp, Value.rank, e]
+
+theorem cmp_sameNumber (x a b : Value) (h : SameNumber a b) :
+    cmp nkey x a = cmp nkey x b ∧ cmp nkey a x = cmp nkey b x := by
+  obtain ⟨m, n, ha, hb, e⟩ := h
+  subst ha; subst hb
+  exact ⟨cmp_num_congr_right x m n e, cmp_num_congr_left x m n e⟩
+
+/-- On the comparison domain of C10, replacing a number by another representation of the same
+    number changes no comparison result, on either side. -/
+theorem goCmp_sameNumber (x a b : Value) (h : SameNumber a b)
+    (da : PairDom x a) (db : PairDom x b) :
+    goCmp x a = goCmp x b ∧ goCmp a x = goCmp b x := by
+  have hc := cmp_sameNumber x a b h
+  rw [goCmp_eq x a da, goCmp_eq x b db, goCmp_eq a x (pairDom_symm da), goCmp_eq b x (pairDom_symm db)]
+  exact hc
+
+/-- the same with the domain stated number by number: everything exactly representable -/
+theorem goCmp_sameNumber_numsOK (x a b : Value) (h : SameNumber a b)
+    (hx : NumsOK x) (ha : NumsOK a) (hb : NumsOK b) :
+    goCmp x a = goCmp x b ∧ goCmp a x = goCmp b x :=
+  goCmp_sameNumber x a b h (Or.inr ⟨hx, ha⟩) (Or.inr ⟨hx, hb⟩)
+
+/-- two representations of one number compare equal -/
+theorem goCmp_sameNumber_zero (a b : Value) (h : SameNumber a b) (d : PairDom a b) : goCmp a b = 0 := by
+  obtain ⟨m, n, ha, hb, e⟩ := h
+  subst ha; subst hb
+  rw [goCmp_eq _ _ d]
+  simp only [cmp, e, cmpInt]
+  simp
 
 end CV
